@@ -6,7 +6,7 @@
    server's answer: success / 404 / 409 / 429 PDB / multiple-PDB 500 / other error) and process restarts.
    No relation between the pod lists, clocks or deadlines of different ops is assumed. [run pre] is the eviction
    queue (pod key -> deadline) after the history [pre]. *)
-From KV Require Import C10.Model C10.Proofs.
+From KV Require Import C10.Model C10.Proofs C10.Split C10.Node.
 Open Scope Z_scope.
 
 (* Eviction API only for evictable pods: after any history, if a reconcile calls the eviction sub-resource for p
@@ -121,6 +121,88 @@ Theorem waiting_eviction_is_spec : forall now p, is_waiting_eviction now p = tru
 Proof. exact is_waiting_eviction_spec. Qed.
 Print Assumptions waiting_eviction_is_spec.
 
+(* ------------------------------------------------------------------ the unlocked window inside one Queue.Reconcile
+   Read (mutex) / Act (no mutex) / Complete (mutex); [pre] is the history before the Read, the clock of the action
+   and everything that happens to the queue after the Read are arbitrary. XComplete is the complete() of other
+   in-flight reconciles. *)
+
+Theorem reconcile_is_read_act_complete : forall q now p api nok,
+  reconcile q now p api nok =
+  (complete q p (snd (decide (qget (pkey p) q) now p api nok)), fst (decide (qget (pkey p) q) now p api nok)).
+Proof. exact C10.Split.reconcile_is_read_act_complete. Qed.
+Print Assumptions reconcile_is_read_act_complete.
+
+(* delete_only_with_deadline and evict_only_evictable survive every interleaving *)
+Theorem delete_only_with_deadline_split : forall (pre : list xop) now p api nok g,
+  r_act (fst (decide (qget (pkey p) (xrun pre)) now p api nok)) = Some (Delete g) ->
+  exists t,
+    qget (pkey p) (xrun pre) = Some (Some t) /\
+    delete_due now p t /\ 1 <= g /\ g = clamp_grace now t /\ g * sec <= Z.max (t - now) sec /\
+    exists pre1 now' pods pre2, pre = pre1 ++ XBase (ODrain now' (Some t) pods) :: pre2 /\
+                                In (pkey p) (selected_keys now' (Some t) pods).
+Proof. exact split_delete_only_with_deadline_l. Qed.
+Print Assumptions delete_only_with_deadline_split.
+
+Theorem evict_only_evictable_split : forall (pre : list xop) now p api nok,
+  r_act (fst (decide (qget (pkey p) (xrun pre)) now p api nok)) = Some Evict ->
+  may_evict now p /\
+  exists pre1 now' dl pods pre2, pre = pre1 ++ XBase (ODrain now' dl pods) :: pre2 /\
+                                 In (pkey p) (selected_keys now' dl pods).
+Proof. exact split_evict_only_evictable_l. Qed.
+Print Assumptions evict_only_evictable_split.
+
+(* deadline_never_later holds for the drain passes that queued the pod before the Read ... *)
+Theorem deadline_never_later_split_partial : forall q0 now dl pods k (mid : list xop),
+  In k (selected_keys now dl pods) ->
+  (forall m1 m2, mid = m1 ++ m2 -> qget k (xrun_from (fst (step q0 (ODrain now dl pods))) m1) <> None) ->
+  exists d, qget k (xrun_from (fst (step q0 (ODrain now dl pods))) mid) = Some d /\ dl_le d dl.
+Proof. exact split_deadline_never_later_at_read_l. Qed.
+Print Assumptions deadline_never_later_split_partial.
+
+(* ... and fails for a pass that runs between the Read and the action: the pod is (re-)queued under dl, stays
+   queued, and is then deleted under the later deadline read before, with a grace that ends after dl; complete()
+   drops the tightened entry. Replayed on the real code by the harness (race-witness, kf_key
+   in-flight-reconcile-uses-stale-deadline). *)
+Theorem deadline_never_later_split_refuted :
+  exists (pre mid : list xop) now dl pods p api nok tnow g,
+    In (pkey p) (selected_keys now dl pods) /\
+    mid = [XBase (ODrain now dl pods)] /\
+    qget (pkey p) (xrun_from (xrun pre) mid) = Some dl /\
+    r_act (fst (decide (qget (pkey p) (xrun pre)) tnow p api nok)) = Some (Delete g) /\
+    (exists t, dl = Some t /\ Z.max (t - tnow) sec < g * sec) /\
+    qget (pkey p) (complete (xrun_from (xrun pre) mid) p (snd (decide (qget (pkey p) (xrun pre)) tnow p api nok))) = None.
+Proof. exact split_deadline_never_later_refuted_l. Qed.
+Print Assumptions deadline_never_later_split_refuted.
+
+(* ------------------------------------------------------------------ node level (termination controller: nodeTerminationTime, awaitDrain) *)
+
+(* The deadline handed to the queue is the NodeClaim's termination timestamp: one reconcile of the deleting node is a
+   drain pass under exactly claim_deadline (the parsed annotation; no NodeClaim or no annotation: no deadline, so no
+   direct deletes), or it stops with an error before any drain when the annotation does not parse. *)
+Theorem node_pass_is_drain_under_claim_deadline : forall q hc del a c now pods,
+  match claim_deadline hc a with
+  | Some dl => fst (fst (fst (node_pass q hc del a c now pods))) = fst (drain q now dl pods) /\
+               snd (node_pass q hc del a c now pods) = Some (snd (drain q now dl pods))
+  | None => node_pass q hc del a c now pods = (q, c, NError, None)
+  end.
+Proof. exact node_pass_is_drain_under_claim_deadline_l. Qed.
+Print Assumptions node_pass_is_drain_under_claim_deadline.
+
+(* ... never later: every pod the pass selects is afterwards queued under a deadline no later than that timestamp *)
+Theorem node_deadline_never_later : forall q del a c now pods t k,
+  a = AnnTime t -> In k (selected_keys now (Some t) pods) ->
+  exists d, qget k (fst (fst (fst (node_pass q true del a c now pods)))) = Some d /\ dl_le d (Some t).
+Proof. exact node_deadline_never_later_l. Qed.
+Print Assumptions node_deadline_never_later.
+
+(* Drained only when no pod is waiting and, with a NodeClaim, MinDrainTime (5s) after the condition went Unknown *)
+Theorem node_drained_only_if : forall q hc del a c now pods,
+  snd (fst (node_pass q hc del a c now pods)) = NDrained ->
+  (forall p, In p pods -> ~ waiting now p) /\
+  (hc = true -> c = CTrue \/ exists s, c = CUnknown s /\ min_drain <= now - s).
+Proof. exact node_drained_only_if_l. Qed.
+Print Assumptions node_drained_only_if.
+
 (* ------------------------------------------------------------------ non-vacuity *)
 Open Scope string_scope.
 
@@ -176,4 +258,15 @@ Example oracle_rejects :
   entry_ok_b (mkE [((1, 1), Some (120 * sec))] (ORec (90 * sec + 1) (plain 1) AOk true) (OutR (mkR (Some (Delete 29)) RDone)) []) = true /\
   entry_ok_b (mkE [] (ODrain 0 None [critical 1; plain 3]) (OutD (mkD (DWaiting 2) [(1, 1)])) [((1, 1), None)]) = false /\
   entry_ok_b (mkE [((1, 1), Some (120 * sec))] (ODrain 0 (Some (500 * sec)) [plain 1]) (OutD (mkD (DWaiting 1) [])) [((1, 1), Some (500 * sec))]) = false.
+Proof. vm_compute. repeat split; reflexivity. Qed.
+
+(* node level: first pass (NodeClaim not yet deleting) queues under the annotation's time but loses the condition
+   patch; the next pass sets Unknown; Drained only 5s later *)
+Example node_passes :
+  let t := 60 * sec in
+  node_pass [] true false (AnnTime t) CAbsent 0 [protected 2] = ([((2, 2), Some t)], CAbsent, NRequeue, Some (mkD (DWaiting 1) [(2, 2)])) /\
+  node_pass [] true true (AnnTime t) CAbsent (sec + 1) [] = ([], CUnknown sec, NRequeue, Some (mkD DOk [])) /\
+  snd (fst (node_pass [] true true (AnnTime t) (CUnknown sec) (6 * sec - 1) [])) = NRequeue /\
+  snd (fst (node_pass [] true true (AnnTime t) (CUnknown sec) (6 * sec) [])) = NDrained /\
+  node_pass [((2, 2), Some t)] true true AnnBad CAbsent 0 [protected 2] = ([((2, 2), Some t)], CAbsent, NError, None).
 Proof. vm_compute. repeat split; reflexivity. Qed.
